@@ -59,10 +59,19 @@ pub fn run(ctx: &Ctx) -> Outcome {
                 items.push(diff::PairItem { pattern: wrapped, reference: Some(d), texts: texts.clone(), all_offsets: true });
             }
         }
+        // neighbours that differ only in case or case mode, bare and inside (?i:..)
+        for p in crate::gen::fold_adjacent_family() {
+            for wrap in [false, true] {
+                let q = if wrap { Flags("i".into(), "".into(), Some(Box::new(p.clone()))) } else { p.clone() };
+                if let Some(d) = crate::c14::desugar(&q, false) {
+                    items.push(diff::PairItem { pattern: q, reference: Some(d), texts: texts.clone(), all_offsets: true });
+                }
+            }
+        }
         let a6 = diff::run_items(ctx, "C02", &items, true, crate::refm::BUDGET);
         acc.add("case-fold-evaluations", a6.evals);
         acc.merge(a6);
-        describe.push_str(&format!("; plus {} patterns (?i:P), P from context products and trees of <= 3 nodes over k K s LONG-S ks (?-i:k) . \\b, judged against the reference run on P with every letter replaced by the class of its case orbit, x all texts over k K KELVIN-SIGN s LONG-S - up to length 3, every offset", items.len()));
+        describe.push_str(&format!("; plus {} patterns (?i:P), P from context products and trees of <= 3 nodes over k K s LONG-S ks (?-i:k) . \\b, and the family quantified-X-next-to-Y with X, Y from k K (?i:k) (?i:K) (?-i:k) s (?i:s) LONG-S in front of / behind \\b, (?=-), (?=), (.)\\1?, bare and inside (?i:..), judged against the reference run on P with every letter replaced by the class of its case orbit, x all texts over k K KELVIN-SIGN s LONG-S - up to length 3, every offset", items.len()));
     }
     diff::run_witnesses(ctx, "C02", "F1", &mut acc);
     let mut out = Outcome::new(acc);
